@@ -389,6 +389,24 @@ func init() {
 					}
 				}
 			}
+			// one byte outside ASCII replaced by ANOTHER byte outside ASCII: bytes that are not valid UTF-8 (and U+FFFD itself) are
+			// different characters, each standing for itself
+			if rng.Intn(4) == 0 {
+				var hi []int
+				for k := 0; k < len(str); k++ {
+					if str[k] >= 0x80 {
+						hi = append(hi, k)
+					}
+				}
+				if len(hi) > 0 {
+					k := hi[rng.Intn(len(hi))]
+					alt := []byte{0xe8, 0xe9, 0xff, 0xfe, 0xc3, 0x80, 0xbf}
+					b := alt[rng.Intn(len(alt))]
+					if b != str[k] {
+						str = str[:k] + string([]byte{b}) + str[k+1:]
+					}
+				}
+			}
 			res, err := likeViaConstructorK(pat, str, kind)
 			if err != nil {
 				res = "panic"
